@@ -49,6 +49,23 @@ PROPS = {
         assumptions=SIM_ASSUME + ["duplicate identities are not generated (the statement is silent on them)", "PLAIN and CURVE greetings count as 'known mechanism' and are expected to be admitted"],
         exhaustive={"quick": True, "thorough": True},
     ),
+    "C05": dict(
+        built=True, level="exploration", design_ref="4/C05",
+        technique="runtime monitor: exactly-once / in-order / whole-message history checker over (a) the real fair queue driven through hook H3 by scripted streams with re-entrant (mid-poll) actions, exhaustive to a bounded depth, (b) truly parallel short runs, (c) real sockets fed tagged multipart messages through pipes under seeded byte-release, join and leave schedules",
+        rule="probe level: every action sequence over {arrive, insert, close, remove, poll, mid-poll arrive/insert/close} to depth 6/5/4 for 1/2/3 streams (quick; 8/7/6 thorough) replayed against the real queue, seeded random walks (200 steps, 1..8 streams) and saturation walks, 120k (quick) very short 2-4-producer threaded runs; socket level: PULL, SUB, DEALER, ROUTER, REP, XPUB x 1..6 peers (+0..2 late joiners, optional leavers by EOF at boundary / mid-frame / between frames / reset, REP envelope violations) under seeded schedules. Non-trivial = sequences with at least one action (all) / socket runs with >= 2 peers; distinct by action sequence (interleaving id = hash of the action sequence) or seed",
+        text="Bounded-exhaustive at the fair-queue level for small stream counts, seeded exploration beyond and at socket level; each delivery is checked against per-connection ground truth derived from the bytes the harness fed.",
+        note="trusted: scripted streams / pipes faithfully report what was made readable; tag checksum detects merged/split/partial messages",
+        assumptions=SIM_ASSUME + ["remove() is only issued between polls (peer_disconnected is never concurrent with a poll of the same socket)", "errors returned after a connection ended are left to C16"],
+    ),
+    "C06": dict(
+        built=True, level="exploration", design_ref="4/C06",
+        technique="runtime monitor: bounded-progress restatement of liveness - lost-wake-up probe at logical quiescence (a parked, never-woken receiver must not be able to return an item), overtaking bound 2n per delivery; closed-system criterion in a truly parallel leg (no wall-clock verdicts)",
+        rule="same action-sequence space as C05 (exhaustive to bounded depth for <= 3 streams, random and saturation walks to 8 streams, 120k threaded runs in quick / 2.4M in thorough) with the receiver modelled as a faithful executor (polls only when runnable); socket-level repeat through the six fair-queue socket types incl. saturated peers. Non-trivial = all sequences; distinct by action sequence",
+        text="Liveness is restated as a safety property over quiescent points and decided on logical steps; exploration is bounded-exhaustive for small configurations and seeded beyond. No universal liveness claim.",
+        note="trusted: the receiver model (poll iff never polled / last poll returned an item / woken since parking) is what a conforming executor does",
+        assumptions=SIM_ASSUME + ["fairness bound 2n other-peer deliveries per ready peer (observed maximum n-1)", "behaviour-preserving edits (waker stored once per poll_next, stream wake not take()-ing the receiver waker) are deliberately not flagged"],
+        hang_is_violation=True,
+    ),
     "C07": dict(
         built=True, level="exploration", design_ref="4/C07",
         technique="runtime monitor: frame-exact comparison of API results and reference-decoded wire taps for REQ and REP facing scripted peers over the full payload-shape x routing-prefix grid, plus degenerate requests",
@@ -88,6 +105,14 @@ PROPS = {
         text="Exhaustive over short histories of the stated alphabet, sampled beyond; each delivery decision compared with the model.",
         note="trusted: reference model in harness/src/props/c11.rs",
         assumptions=SIM_ASSUME + ["pipes accept all writes in this property (back-pressure is C12)", "whether XPUB hands malformed subscription messages to the application is not asserted"],
+    ),
+    "C14": dict(
+        built=True, level="fault_enumeration", design_ref="4/C14",
+        technique="runtime monitoring with injected cancellation: the pending recv future is dropped after j polls at every byte-arrival position; exactly-once/in-order history checker over later recv calls plus protocol-state probes (REQ still owes the recv, REP still refuses a reply)",
+        rule="faults = cancellation points: for each of the 7 receiving socket types, every byte-arrival position 0..len+1 of a 3-frame message x 0..4 polls before the drop x 1..3 consecutive abandoned calls (targeted sweep, complete), plus seeded multi-peer histories (1..5 peers) where every recv call is abandoned after 0..3 polls with probability 2/3; non-trivial = every case (each contains at least one recv call, >95% at least one drop); distinct by (type, position, polls, repeats) or seed",
+        text="The cancellation-point grid for a single message is enumerated completely per socket type; multi-peer interleavings are seeded. Nothing is claimed for cancellation inside code that has no suspension point (there is none to cancel at).",
+        note="trusted: dropping the boxed future is exactly what select!/timeout do",
+        assumptions=SIM_ASSUME,
     ),
     "C19": dict(
         built=True, level="exploration", design_ref="4/C19",
@@ -149,4 +174,4 @@ def write_manifest(path):
 
 
 HOOK_COMMITS = ["c9656b6"]
-FIX_COMMITS = ["48acad6", "f3d84e9", "be9d015", "f1a8fb7", "1cfb825", "8c4f97d"]
+FIX_COMMITS = ["48acad6", "f3d84e9", "be9d015", "f1a8fb7", "1cfb825", "8c4f97d", "f5bbfca"]
